@@ -13,7 +13,7 @@ func init() {
 	register(&propDef{
 		ID: "C06",
 		Meta: propMeta{
-			Explanation: "Decides on every path: (R06a) the only functions that call through the Signer.Sign registry field are the server's /sign handler and the standalone sign command, and Signer.Sign functions are not invoked directly from elsewhere; (R06b) in the /sign handler, from the success edge of mod.Sign no use of the ResponseWriter (other than Header()) and no nil-error return is reachable without crossing PublishAudit(...)==nil, PublishAudit is called exactly once outside any loop, and its argument is the audit.Info created by this request's signinit.Init; (R06c) the same for the standalone command with the nil return as sink; (R06d) PublishAudit cannot return nil when a configured sink was skipped or failed, and every error in Info.AppendTo / Info.Publish is propagated; (R06e) AppendTo opens with O_APPEND, performs exactly one write outside any loop, of a buffer that ends in the newline appended before the write; (R06f) the record is built from this request's objects: audit.New receives the key config's name, the signer's name and the digest; the certificate recorded is InitKey's; SignOpts carries that Info and that digest; the handler stores client.ip / client.filename and calls UserInfo.AuditContext before publishing, and every UserInfo implementation records a client.* attribute. (R06g) no value that reaches a function result is the memory of an object that went back into a sync.Pool (shared with C14 R14e): the serialised audit record cannot be overwritten by a concurrent request before it is delivered.",
+			Explanation: "Decides on every path: (R06a) the only functions that call through the Signer.Sign registry field are the server's /sign handler and the standalone sign command, and Signer.Sign functions are not invoked directly from elsewhere; (R06b) in the /sign handler, from the success edge of mod.Sign no use of the ResponseWriter (other than Header()) and no nil-error return is reachable without crossing PublishAudit(...)==nil, PublishAudit is called exactly once outside any loop, and its argument is the audit.Info created by this request's signinit.Init; (R06c) the same for the standalone command with the nil return as sink; (R06d) PublishAudit cannot return nil when a configured sink was skipped or failed, and every error in Info.AppendTo / Info.Publish is propagated; (R06e) AppendTo opens with O_APPEND, performs exactly one write outside any loop, of a buffer that ends in the newline appended before the write; (R06f) the record is built from this request's objects: audit.New receives the key config's name, the signer's name and the digest; the certificate recorded is InitKey's, and each kind (X.509, PGP) is recorded on every success path that did not find the key to have none; SignOpts carries that Info and that digest; the handler stores client.ip / client.filename and calls UserInfo.AuditContext before publishing, and every UserInfo implementation records a client.* attribute. (R06g) no value that reaches a function result is the memory of an object that went back into a sync.Pool (shared with C14 R14e): the serialised audit record cannot be overwritten by a concurrent request before it is delivered.",
 			NotDecided:  "atomicity of O_APPEND writes in the kernel, broker behaviour, and that the attribute values equal what the signer actually used beyond being derived from the same objects.",
 			Assumptions: []string{"a single write(2) on an O_APPEND descriptor is not interleaved with other appenders (POSIX, for sizes the kernel writes atomically)"},
 		},
@@ -627,7 +627,49 @@ func c06Content(c *Ctx, rf string) {
 		src, idx := resultOf(base)
 		recv, _ := resultOf(calls[0].Common().Args[0])
 		c.Check(fld == m.field && src == ik && idx == 0 && recv == nw, rf, key, p.Pos(calls[0].Pos()), "recorded from the certificate InitKey loaded, into this request's Info", "the recorded "+m.label+" is not the one loaded for this key / not recorded in this request's Info")
-		// recorded whenever present: the call is guarded only by the non-nil test of that field
+		// recorded whenever present: a success return is reached only through the call or through an edge
+		// on which that field of the certificate bundle was found nil
+		del := map[edge]bool{}
+		for _, ci := range calls {
+			for si := range ci.Block().Succs {
+				del[edge{ci.Block().Index, si}] = true
+			}
+		}
+		for _, b := range init.Blocks {
+			ifi, ok := b.Instrs[len(b.Instrs)-1].(*ssa.If)
+			if !ok {
+				continue
+			}
+			for si, truth := range []bool{true, false} {
+				for _, f := range factsOf(ifi.Cond, truth) {
+					if f.Kind != IsNil {
+						continue
+					}
+					if _, fl, bs := p.fieldLoad(f.V); fl == m.field {
+						if s2, i2 := resultOf(bs); s2 == ik && i2 == 0 {
+							del[edge{b.Index, si}] = true
+						}
+					}
+				}
+			}
+		}
+		pred := map[int]int{}
+		seen := reach(init, []*ssa.BasicBlock{init.Blocks[0]}, del, pred)
+		bad := ""
+		var path []string
+		for _, r := range p.successReturns(init) {
+			inCallBlock := false
+			for _, ci := range calls {
+				if ci.Block() == r.Block() {
+					inCallBlock = true
+				}
+			}
+			if seen[r.Block().Index] && !inCallBlock {
+				bad = p.Pos(r.Pos())
+				path = p.witness(init, pred, r.Block().Index)
+			}
+		}
+		c.Check(bad == "", rf, key+" whenever the key has one", p.Pos(calls[0].Pos()), "every success path records it or found it absent", "Init can succeed ("+bad+") on a path that neither records the "+m.label+" nor found the key to have none: for a key that carries both kinds of certificate the record names only one of them, and a signature made under the other is not attributable from the audit trail", path...)
 	}
 	// SignOpts carries this Info and this digest
 	okAudit, okHash := false, false
